@@ -1,6 +1,7 @@
 """Harness running, obligation aggregation."""
 from __future__ import annotations
 import time
+import z3
 import traceback
 
 from .ctx import explore, Unsupported, Check
@@ -97,6 +98,9 @@ def run_harness(h: Harness) -> HarnessResult:
         res.solver_calls = stats.solver_calls
     except Unsupported as e:
         res.undecided = str(e)
+    except z3.Z3Exception as e:
+        # the code no longer fits the sorts of the sidecar model (e.g. an address where the model expects a node index)
+        res.undecided = f"the sidecar model does not fit this code shape (z3: {e})"
     except AssertionError as e:
         # a sidecar model met a code shape it does not cover ("... is not modelled"): undecided, never a verdict
         res.undecided = f"the sidecar model does not cover this code shape: {e}"
